@@ -16,11 +16,13 @@ import (
 	"bytes"
 	"fmt"
 	"os"
+	"path/filepath"
 	"strings"
 
 	"github.com/google/pprof/internal/plugin"
 	"github.com/google/pprof/internal/verifsim/simos"
 	"github.com/google/pprof/internal/verifsim/simrt"
+	"github.com/google/pprof/profile"
 )
 
 func init() {
@@ -62,12 +64,36 @@ func genC08Case(t *simrt.Tape) *c08case {
 	ns := 1 + t.Choose(K, 3)
 	nt := 1 + t.Choose(K, 2)
 	mk := func() []byte {
-		return encodeProfile(genProfile(t, genOpts{types: nt, tieRich: true, negative: true, labels: true, inlines: true, maxFuncs: 6, maxSamples: 8, maxDepth: 4, mappings: 1}))
+		return encodeProfile(genProfile(t, genOpts{types: nt, tieRich: true, negative: true, labels: true, inlines: true, maxFuncs: 6, maxSamples: 8, maxDepth: 4}))
 	}
 	for i := 0; i < ns; i++ {
 		c.profs = append(c.profs, mk())
 	}
-	if t.Bool(K, 50) {
+	if t.Bool(K, 15) {
+		// The same binary installed at two paths: a twin of the first source
+		// whose mappings live in another directory (same base name), optionally
+		// with both sides unsymbolized. Nodes then differ only in object file.
+		strip := t.Bool(K, 50)
+		twin := func(data []byte, dir string) []byte {
+			p, err := profile.ParseData(data)
+			if err != nil {
+				panic(err)
+			}
+			for _, m := range p.Mapping {
+				m.File = dir + "/" + filepath.Base(m.File)
+			}
+			if strip {
+				for _, l := range p.Location {
+					l.Line = nil
+				}
+				p.Function = nil
+			}
+			return encodeProfile(p)
+		}
+		c.profs[0] = twin(c.profs[0], "/opt/a/bin")
+		c.bases = append(c.bases, twin(c.profs[0], "/opt/b/bin"))
+		c.diffBase = t.Bool(K, 50)
+	} else if t.Bool(K, 50) {
 		nb := 1 + t.Choose(K, 2)
 		for i := 0; i < nb; i++ {
 			if t.Bool(K, 50) {
